@@ -104,6 +104,8 @@ func guard(f func() string) (out string) {
 	return f()
 }
 
+var lastHeaderMsg string
+
 var (
 	lastPanic   string
 	lastPanicMu sync.Mutex
@@ -307,6 +309,7 @@ func (c *opCtx) newValue(v *Val) (reflect.Value, error) {
 
 // execOp runs one op against the real code and returns the canonical result line.
 func execOp(s *Sexp) string {
+	lastHeaderMsg = ""
 	h := s.head()
 	arg := func(i int) string {
 		if i < len(s.List) && !s.List[i].IsL {
@@ -628,6 +631,7 @@ func execOp(s *Sexp) string {
 			if err := measureDecode(c, data, pv, prior); err != nil {
 				return "err"
 			}
+			lastHeaderMsg = badSliceHeaders(pv.Elem())
 			return "ok " + FromReflect(pv.Elem(), c.td).String()
 		})
 	case "decm":
@@ -666,6 +670,7 @@ func execOp(s *Sexp) string {
 			if err := c.unmarshalPtr(data, dst); err != nil {
 				return "err"
 			}
+			lastHeaderMsg = badSliceHeaders(dst.Elem())
 			return "ok " + FromReflect(dst.Elem(), c.td).String()
 		})
 	case "rt":
@@ -693,6 +698,7 @@ func execOp(s *Sexp) string {
 			if err := c.unmarshalPtr(data, out); err != nil {
 				return "err"
 			}
+			lastHeaderMsg = badSliceHeaders(out.Elem())
 			return "ok " + FromReflect(out.Elem(), c.td).String()
 		})
 	case "app":
@@ -782,6 +788,7 @@ func execOp(s *Sexp) string {
 			if err := p.Unmarshal(data, dst.Interface()); err != nil {
 				return "err"
 			}
+			lastHeaderMsg = badSliceHeaders(dst.Elem())
 			return "ok " + FromReflect(dst.Elem(), td2).String()
 		})
 	case "xdec":
@@ -818,6 +825,7 @@ func execOp(s *Sexp) string {
 			if err := pd.Unmarshal(data, dst.Interface()); err != nil {
 				return "err"
 			}
+			lastHeaderMsg = badSliceHeaders(dst.Elem())
 			return "ok " + FromReflect(dst.Elem(), td).String()
 		})
 	case "laws":
